@@ -62,6 +62,10 @@ def check(ctx):
   c11.r2_r3(ctx)
   c11.r4(ctx)
   c03.r6(ctx)
+  from . import c17 as _c17
+  ctx.rule('C17.R4', 'shared with C17: a call issued before the client is open is answered through ContinueWith(...).Unwrap(): the continuation result is set exactly once and Unwrap hands on value or failure of the inner result')
+  _c17.continue_with(ctx)
+  _c17.unwrap(ctx)
 
 
 def r1(ctx):
@@ -363,8 +367,9 @@ def r6(ctx):
       ok = isinstance(a, ast.Call) and U(a.func) == 'MethodReturnMessage' and any(k.arg == 'error' and U(k.value) == 'TimeoutError()' for k in a.keywords)
     ctx.ob('C01.R6', h, 'the timer posts MethodReturnMessage(error=TimeoutError()) into the call\'s stack once', ok, 'timeout helper posts %s' % [U(u[1]) for u in ups], why)
     if (evt, True) in fs:
-      ctx.ob('C01.R6', h, 'the timeout event is set before the timeout is posted', len(sets) == 1 and ups and sets[0] < ups[0][0] and U(ev[sets[0]].node.args[0]) == 'True',
-             'event set at %s, posted at %s' % (sets, [u[0] for u in ups]), 'parked hops must see the event by the time the caller has its TimeoutError')
+      ctx.ob('C01.R6', h, 'the timeout event is set before the timeout is posted', len(sets) == 1 and bool(ups) and sets[0] < ups[0][0] and [U(a_) for a_ in ev[sets[0]].node.args] == ['True'] and not ev[sets[0]].node.keywords,
+             'event set at %s with %s, posted at %s' % (sets, [U(ev[i_].node) for i_ in sets], [u[0] for u in ups]),
+             'parked hops must see the event by the time the caller has its TimeoutError (they test the value: Set() without a value stores None, which reads as "not timed out")')
   set_paths = 0
   for ev, ex in enum_paths(ctx, h):
     if any(e.kind == 'call' and U(e.node.func) == evt + '.Set' and [U(a) for a in e.node.args] == ['True'] for e in ev):
@@ -391,8 +396,60 @@ def r6(ctx):
          'deadlines are absolute time.time() values', nontrivial=False)
 
 
+def r7_config(ctx):
+  """The T of `t + T`: the builder hands the value given to SetTimeout (default 10 s) to the dispatcher, which uses it for every call
+  that does not bring its own timeout; nothing else writes it."""
+  prog = ctx.prog
+  why = ('a call completes no later than t + T where T is the configured call timeout: a setter of another option that writes the same attribute, or the '
+         'wrong attribute handed to the dispatcher, silently changes T (T = 0 / None means no deadline at all: the call may never complete)')
+  C = 'scales/core.py'
+  build = prog.func(C, 'Scales.ClientBuilder.Build')
+  init = prog.func(D, 'MessageDispatcher.__init__')
+  # the dispatcher parameter that becomes the default timeout
+  tparam = None
+  for st in walk_no_nested(init.node):
+    if isinstance(st, ast.Assign) and U(st.targets[0]) == 'self._dispatch_timeout' and isinstance(st.value, ast.Name):
+      tparam = st.value.id
+  if tparam is None or tparam not in init.params:
+    raise AnalysisError('C01.R7: MessageDispatcher.__init__ does not store its default timeout parameter')
+  pos = init.params.index(tparam) - 1
+  calls = [c for c in ast.walk(build.node) if isinstance(c, ast.Call) and U(c.func).split('.')[-1] == 'MessageDispatcher']
+  if len(calls) != 1:
+    raise AnalysisError('C01.R7: MessageDispatcher construction not found in Build')
+  c = calls[0]
+  arg = c.args[pos] if pos < len(c.args) and not any(isinstance(a, ast.Starred) for a in c.args[:pos + 1]) else dict((k.arg, k.value) for k in c.keywords).get(tparam)
+  src = U(arg) if arg is not None else None
+  ctx.ob('C01.R7', build, 'the dispatcher is built with the configured call timeout', src is not None and src.startswith('self._') and 'open' not in src,
+         'MessageDispatcher default timeout argument is %s' % src, why)
+  if src and src.startswith('self._'):
+    attr = src[5:]
+    writers = []
+    for f in prog.all_funcs:
+      if f.module.rel != C or not f.qualname.startswith('Scales.ClientBuilder.'):
+        continue
+      for st in walk_no_nested(f.node):
+        if isinstance(st, (ast.Assign, ast.AugAssign)):
+          for t in (st.targets if isinstance(st, ast.Assign) else [st.target]):
+            for x in ([t] if not isinstance(t, ast.Tuple) else t.elts):
+              if U(x) == 'self.' + attr:
+                writers.append((f, st))
+    bad = []
+    setters = 0
+    for f, st in writers:
+      if f.name == '__init__':
+        ok = isinstance(st, ast.Assign) and isinstance(st.value, ast.Constant) and isinstance(st.value.value, (int, float)) and st.value.value > 0
+      else:
+        ok = isinstance(st, ast.Assign) and isinstance(st.value, ast.Name) and st.value.id in f.params[1:] and 'open' not in f.name.lower() and 'timeout' in f.name.lower()
+        setters += 1 if ok else 0
+      if not ok:
+        bad.append('%s: %s' % (f.qualname, U(st)))
+    ctx.ob('C01.R7', build, 'the call timeout is written by its constructor default and its own setter only', not bad and setters == 1,
+           'self.%s is written by %s' % (attr, bad or [f.qualname for f, _ in writers]), why)
+
+
 def r7(ctx):
   prog = ctx.prog
+  r7_config(ctx)
   f = prog.func(D, 'MessageDispatcher._DispatchMethod')
   why = ('TimeoutError is never delivered before t+T and the call completes by t+T: the stored deadline must be exactly the issue time plus the '
          'timeout; any other clock-sample coefficient moves it')
